@@ -104,6 +104,7 @@ SetSlot(nd, slot, x) == IF slot[1] = 0 THEN nd
 Retire(wf, n, t) == [wf EXCEPT ![n] = {u \in Threads : InOp(u)}]
 
 StartPc(op) == CASE op = "get" -> "g_rl" [] op = "ins" -> "i_rl" [] op = "rem" -> "r_rl"
+                 [] op = "scan" -> "s_call"      \* scans: module OlcArtIter
 
 \* restart the current operation from its first step (cached leaf is kept)
 Restart(r) == [r EXCEPT !.pc = StartPc(r.op), !.held = <<>>, !.newn = 0]
